@@ -35,6 +35,7 @@ func init() {
 			{Name: "long-chain", N: core.TierN(120, 6000), Batch: 4, Run: c01Long},
 			{Name: "short-porcupine", N: core.TierN(1500, 80000), Batch: 50, Run: c01Short},
 			{Name: "put-cancelled-midway", N: core.TierN(60, 2400), Batch: 10, Run: c01PutCancelled},
+			{Name: "huge-batches", N: core.TierN(6, 240), Batch: 2, Run: c01HugeBatches},
 		},
 	})
 }
@@ -217,4 +218,96 @@ func c01PutCancelled(c *core.Ctx) {
 		c.R.WinMissed++
 	}
 	c.Sig("put-cancelled", rounds, len(rejected) > 0, windows > 0)
+}
+
+// c01HugeBatches: "each call's values are contiguous" holds for calls of any size.
+func c01HugeBatches(c *core.Ctx) {
+	b := newBuffer(cleanerSpec{}, core.Pick(c.Rng, 0, 100*time.Microsecond), nil)
+	defer b.Close()
+	ref, err := b.NewConsumer()
+	if err != nil {
+		c.Violate("newconsumer-error", "%v", err)
+		return
+	}
+	defer ref.Rollback()
+	producers := 2 + c.Rng.IntN(2)
+	rounds := 3 + c.Rng.IntN(4)
+	sizes := make([][]int, producers)
+	for p := range sizes {
+		for r := 0; r < rounds; r++ {
+			sizes[p] = append(sizes[p], 9000+c.Rng.IntN(31000))
+		}
+	}
+	type tag struct{ p, r, i int }
+	done := make(chan struct{})
+	go func() {
+		defer close(done)
+		start := make(chan struct{})
+		fin := make(chan struct{}, producers)
+		for p := 0; p < producers; p++ {
+			p := p
+			go func() {
+				<-start
+				for r, n := range sizes[p] {
+					vals := make([]interface{}, n)
+					for i := range vals {
+						vals[i] = tag{p, r, i}
+					}
+					b.Put(context.Background(), vals...)
+				}
+				fin <- struct{}{}
+			}()
+		}
+		close(start)
+		for p := 0; p < producers; p++ {
+			<-fin
+		}
+	}()
+	total := 0
+	for p := range sizes {
+		for _, n := range sizes[p] {
+			total += n
+		}
+	}
+	var cur tag
+	inBatch := false
+	nextRound := make([]int, producers)
+	got := 0
+	for got < total {
+		ctx, cancel := context.WithTimeout(context.Background(), 20*time.Second)
+		v, err := ref.Get(ctx)
+		cancel()
+		if err != nil {
+			c.Violate("get-error", "reference consumer after %d of %d values: %v", got, total, err)
+			return
+		}
+		got++
+		t := v.(tag)
+		switch {
+		case !inBatch:
+			if t.i != 0 || t.r != nextRound[t.p] {
+				c.Violate("batch-not-contiguous", "expected the first value of producer %d's batch %d, got value %d of its batch %d (a batch of %d values is not one contiguous run)", t.p, nextRound[t.p], t.i, t.r, sizes[t.p][t.r])
+				return
+			}
+			cur, inBatch = t, true
+		case t.p != cur.p || t.r != cur.r || t.i != cur.i+1:
+			c.Violate("batch-not-contiguous", "after value %d of producer %d's batch %d (%d values) came value %d of producer %d's batch %d: the values of one Put are not contiguous", cur.i, cur.p, cur.r, sizes[cur.p][cur.r], t.i, t.p, t.r)
+			return
+		default:
+			cur = t
+		}
+		if inBatch && cur.i == sizes[cur.p][cur.r]-1 {
+			inBatch = false
+			nextRound[cur.p]++
+		}
+		if got%4096 == 0 {
+			ref.Commit()
+		}
+	}
+	ref.Commit()
+	<-done
+	c.Op("put", producers*rounds)
+	c.Op("get", got)
+	c.Nontrivial()
+	c.Sig("huge", producers, rounds)
 }
